@@ -79,7 +79,14 @@ type SpyCall struct {
 var (
 	ErrSigner   = errors.New("verif: injected signer failure")
 	ErrVerifier = errors.New("verif: injected verifier failure")
+	// ErrSeamPanic is what a world sees when a panic raised by a seam
+	// (application-supplied signer or verifier) propagated out of go-cose.
+	ErrSeamPanic = errors.New("verif: seam panicked and the panic propagated")
 )
+
+// SeamPanic is the value a misbehaving seam panics with (a device driver
+// that crashes, a key object that was torn down).
+type SeamPanic struct{ Who string }
 
 // SpySigner wraps a signer, records what it is asked to sign, and can be told
 // to misbehave.
@@ -110,6 +117,8 @@ func (s *SpySigner) Sign(rand io.Reader, content []byte) ([]byte, error) {
 		rand = s.OwnRand
 	}
 	switch s.Fault {
+	case "panic":
+		panic(SeamPanic{"signer " + s.Tag})
 	case "err":
 		return nil, ErrSigner
 	case "empty":
@@ -144,6 +153,8 @@ func (v *SpyVerifier) Verify(content, signature []byte) error {
 		*v.Log = append(*v.Log, "verify:"+v.Tag)
 	}
 	switch v.Fault {
+	case "panic":
+		panic(SeamPanic{"verifier " + v.Tag})
 	case "err":
 		return ErrVerifier
 	case "accept":
